@@ -13,7 +13,11 @@
 //   - a condition's '(' stands on the line of its first token and its ')' on the line of its last token, so "lines the
 //     condition spans" is the same with or without the parentheses; the `if` keyword may stand alone on the line before;
 //   - getters / setters are `getXxx` / `setXxx` with an upper-case letter after the prefix; every other method name
-//     does not start with "get"/"set" at all (names like `settle`, `getaway`, `isReady` are not generated);
+//     does not start with "get"/"set" at all (names like `settle`, `getaway`, `isReady` are not generated); besides
+//     the trivial field accessors there are accessor-NAMED ordinary methods (getReport(a,b,c,d,e,f), a 31-line
+//     setUpEverything()): the method-level kinds apply to them like to any method, and they are only put into classes
+//     that have another ordinary method and fewer than 18 ordinary methods, so that the class-level verdicts are the
+//     same whether or not one calls them getters/setters;
 //   - one top-level type per file, no nested / anonymous / local types, no lambdas, no enums / records / annotations;
 //   - constructors only in classes whose verdicts do not depend on whether a constructor is a method.
 package smellgen
@@ -32,18 +36,21 @@ type Cond struct {
 
 // Method is the planted record of one method.
 type Method struct {
-	Name        string `json:"name"`
-	Form        string `json:"form"` // class | static | abstract | iface-abstract | iface-default | iface-static
-	Role        string `json:"role"` // plain | getter | setter
-	Params      int    `json:"params"`
-	Varargs     bool   `json:"varargs,omitempty"`
-	Generic     bool   `json:"generic,omitempty"` // declares its own type parameter: `<T> void name(…)`
-	HasBody     bool   `json:"has_body"`
-	StartLine   int    `json:"start_line"`
-	CloseLine   int    `json:"close_line"`
-	TopIfs      int    `json:"top_ifs"`
-	TopSwitches int    `json:"top_switches"`
-	Conds       []Cond `json:"conds,omitempty"`
+	Name string `json:"name"`
+	Form string `json:"form"` // class | static | abstract | iface-abstract | iface-default | iface-static
+	Role string `json:"role"` // plain | getter | setter (by NAME: get/set + upper-case letter)
+	// AccessorNamed: an ordinary method (own parameters, statements, any length) that merely carries a get…/set… name,
+	// e.g. getReport(a,b,c,d,e,f) or a 31-line setUpEverything(); Role is getter/setter for it.
+	AccessorNamed bool   `json:"accessor_named,omitempty"`
+	Params        int    `json:"params"`
+	Varargs       bool   `json:"varargs,omitempty"`
+	Generic       bool   `json:"generic,omitempty"` // declares its own type parameter: `<T> void name(…)`
+	HasBody       bool   `json:"has_body"`
+	StartLine     int    `json:"start_line"`
+	CloseLine     int    `json:"close_line"`
+	TopIfs        int    `json:"top_ifs"`
+	TopSwitches   int    `json:"top_switches"`
+	Conds         []Cond `json:"conds,omitempty"`
 	// decoys: things that must not count
 	NestedIfs      int   `json:"nested_ifs,omitempty"`
 	NestedSwitches int   `json:"nested_switches,omitempty"`
@@ -89,7 +96,7 @@ func (p *Project) ShapeKey() string {
 		fmt.Fprintf(&sb, "[%s f%d c%d", c.Kind, c.Fields, c.Ctors)
 		for i := range c.Methods {
 			m := &c.Methods[i]
-			fmt.Fprintf(&sb, "|%s,%s,p%d,v%v%v,l%d,i%d,s%d,n%d/%d/%d", m.Form, m.Role, m.Params, m.Varargs, m.Generic, m.CloseLine-m.StartLine, m.TopIfs, m.TopSwitches, m.NestedIfs, m.NestedSwitches, m.ElseIfs)
+			fmt.Fprintf(&sb, "|%s,%s%v,p%d,v%v%v,l%d,i%d,s%d,n%d/%d/%d", m.Form, m.Role, m.AccessorNamed, m.Params, m.Varargs, m.Generic, m.CloseLine-m.StartLine, m.TopIfs, m.TopSwitches, m.NestedIfs, m.NestedSwitches, m.ElseIfs)
 			for _, cd := range m.Conds {
 				fmt.Fprintf(&sb, ";%d.%d", cd.StartLine-cd.IfLine, cd.EndLine-cd.StartLine)
 			}
